@@ -158,21 +158,190 @@ Proof. cbn [kernel]. unfold st_count. rewrite N.land_0_r. reflexivity. Qed.
 Lemma empty_t psi idx : K (AT 0 false) psi idx = psi idx.
 Proof. cbn [kernel]. unfold st_count. rewrite N.land_0_r. reflexivity. Qed.
 
-Definition C01_multi_bit_stmt : Prop :=
-  forall (bs : list N), NoDup bs ->
-    forall (psi : vecR) (idx : N),
-      multi_fn Rops (op_x (mask_of bs)) psi idx = lift_all (doc_x Rops) bs psi idx /\
-      multi_fn Rops (op_z (mask_of bs)) psi idx = lift_all (doc_z Rops) bs psi idx /\
-      multi_fn Rops (op_s (mask_of bs)) psi idx = lift_all (doc_s Rops) bs psi idx /\
-      multi_fn Rops (op_t (mask_of bs)) psi idx = lift_all (doc_t Rops) bs psi idx.
 
-Lemma C01_multi_bit_proof : C01_multi_bit_stmt.
+(** ** Y: the fused power of i of a several-bit mask is the product of the one-bit factors *)
+Lemma rotate_congr z a b : a mod 4 = b mod 4 -> rotate Rops z a = rotate Rops z b.
+Proof. intro H. rewrite !rotate_mod4, H. reflexivity. Qed.
+
+Definition b2n (b : bool) : N := if b then 1 else 0.
+
+Lemma mod4_of_bits q : q mod 4 = b2n (N.testbit q 0) + 2 * b2n (N.testbit q 1).
 Proof.
-  intros bs Hnd psi idx. repeat split.
-  - unfold op_x. rewrite multi_fn_one. apply (multi_bit AX (doc_x Rops) k_x comp_x empty_x bs Hnd).
-  - unfold op_z. rewrite multi_fn_one. apply (multi_bit AZ (doc_z Rops) k_z comp_z empty_z bs Hnd).
-  - unfold op_s. rewrite multi_fn_one.
-    apply (multi_bit (fun m => AS m false) (doc_s Rops) k_s comp_s empty_s bs Hnd).
-  - unfold op_t. rewrite multi_fn_one.
-    apply (multi_bit (fun m => AT m false) (doc_t Rops) k_t comp_t empty_t bs Hnd).
+  assert (H := low_bits q). assert (B : q mod 4 < 4) by (apply N.mod_lt; discriminate).
+  destruct (q mod 4) as [|[[|[]|]|[|[]|]|]]; try lia; injection H as H0 H1; rewrite H0, H1; reflexivity.
+Qed.
+
+Definition ipv (k : N) (o : bool) : N :=
+  let y := N.lxor (N.succ k) (N.ones 32) in if o then y else N.lxor y 2.
+
+Definition ipf (r : N) (o : bool) : N := (3 - r + (if o then 0 else 2)) mod 4.
+
+Lemma ones32_bit i : i < 32 -> N.testbit (N.ones 32) i = true.
+Proof. intro H. apply N.ones_spec_low. exact H. Qed.
+
+Lemma ipv_mod4 k o : ipv k o mod 4 = ipf (N.succ k mod 4) o.
+Proof.
+  unfold ipv. cbv zeta. set (s := N.succ k).
+  assert (H := low_bits s). assert (B : s mod 4 < 4) by (apply N.mod_lt; discriminate).
+  destruct o; rewrite mod4_of_bits, ?N.lxor_spec, !(ones32_bit 0), !(ones32_bit 1) by lia;
+    change (N.testbit 2 0) with false; change (N.testbit 2 1) with true;
+    destruct (s mod 4) as [|[[|[]|]|[|[]|]|]]; try lia; injection H as H0 H1; rewrite H0, H1; reflexivity.
+Qed.
+
+Lemma ipf_add r1 r2 o1 o2 : r1 < 4 -> r2 < 4 ->
+  (ipf r2 o2 + ipf r1 o1) mod 4 = ipf ((r1 + r2 + 3) mod 4) (xorb o1 o2).
+Proof.
+  intros H1 H2.
+  destruct r1 as [|[[|[]|]|[|[]|]|]]; try lia; destruct r2 as [|[[|[]|]|[|[]|]|]]; try lia;
+    destruct o1, o2; reflexivity.
+Qed.
+
+Lemma ipv_add k1 k2 o1 o2 : (ipv k2 o2 + ipv k1 o1) mod 4 = ipv (k1 + k2) (xorb o1 o2) mod 4.
+Proof.
+  rewrite N.add_mod by discriminate. rewrite !ipv_mod4.
+  rewrite ipf_add by (apply N.mod_lt; discriminate). f_equal.
+  rewrite <- N.add_mod_idemp_l by discriminate. rewrite <- N.add_mod by discriminate.
+  rewrite N.add_mod_idemp_l by discriminate.
+  replace (N.succ k1 + N.succ k2 + 3) with (N.succ (k1 + k2) + 1 * 4) by lia.
+  apply N.mod_add. discriminate.
+Qed.
+
+Lemma k_y_ipv m psi idx :
+  K (AY m) psi idx = rotate Rops (psi (N.lxor idx m)) (ipv (popcount m) (N.odd (popcount (N.land idx m)))).
+Proof. reflexivity. Qed.
+
+Lemma comp_y m1 m2 : N.land m1 m2 = 0 -> forall psi idx,
+  K (AY (N.lor m1 m2)) psi idx = K (AY m1) (K (AY m2) psi) idx.
+Proof.
+  intros Hd psi idx. rewrite (k_y_ipv m1), (k_y_ipv m2), (k_y_ipv (N.lor m1 m2)).
+  rewrite (land_lxor_other m1 m2 Hd), rotate_add, <- (lxor_lor_disj m1 m2 Hd).
+  apply rotate_congr. rewrite (popcount_land_lor m1 m2 Hd), N.odd_add.
+  rewrite (popcount_lor_disjoint m1 m2 Hd). symmetry. apply ipv_add.
+Qed.
+
+Lemma empty_y psi idx : K (AY 0) psi idx = psi idx.
+Proof. rewrite k_y_ipv, N.lxor_0_r, N.land_0_r. reflexivity. Qed.
+
+
+(** ** H: the pairing decomposition of [op_h] is the product of one-qubit Hadamards *)
+From QV Require Import BitsIterP.
+
+Lemma h2_comp x y : x <> y -> forall psi idx,
+  K (AH2 (2 ^ x) (2 ^ y)) psi idx = K (AH1 (2 ^ x)) (K (AH1 (2 ^ y)) psi) idx.
+Proof.
+  intros Hxy psi idx. cbn [kernel].
+  rewrite (lxor_lor_disj (2 ^ x) (2 ^ y) (land_pow2_pow2 x y Hxy)).
+  rewrite !land_pow2_eq0, N.lxor_spec, pow2_bits.
+  replace (N.eqb x y) with false by (symmetry; apply N.eqb_neq; exact Hxy). rewrite xorb_false_r.
+  destruct (N.testbit idx x), (N.testbit idx y); cbn [negb]; cbv iota; unf;
+    destruct (psi idx) as [a0 b0], (psi (N.lxor idx (2 ^ x))) as [a1 b1],
+             (psi (N.lxor idx (2 ^ y))) as [a2 b2], (psi (N.lxor (N.lxor idx (2 ^ x)) (2 ^ y))) as [a3 b3];
+    cbn [fst snd]; generalize isq2_sq2; set (h := (/ sqrt 2)%R); intro Hq;
+    assert (Hh : (2 * / 2 = 1)%R) by lra; revert Hh; set (hf := (/ 2)%R); intro Hh; f_equal; nsatz.
+Qed.
+
+Definition pows (ps : list N) : list N := map (fun j => 2 ^ j) ps.
+
+Lemma lift_all_app U l1 l2 psi : lift_all U (l1 ++ l2) psi = lift_all U l1 (lift_all U l2 psi).
+Proof. unfold lift_all. apply fold_right_app. Qed.
+
+Lemma lift_all_ext U bs : forall (v w : vecR), (forall i, v i = w i) -> forall idx, lift_all U bs v idx = lift_all U bs w idx.
+Proof.
+  induction bs as [|b bs IH]; intros v w H idx; cbn [lift_all fold_right]; [apply H|].
+  apply lift1_ext. intro i. apply (IH v w H).
+Qed.
+
+Lemma multi_fn_cons s (rest : multi R) (psi : vecR) : multi_fn Rops (s :: rest) psi = multi_fn Rops rest (single_fn Rops s psi).
+Proof. reflexivity. Qed.
+
+Lemma multi_fn_ext (q : multi R) : forall (v w : vecR), (forall i, v i = w i) -> forall idx, multi_fn Rops q v idx = multi_fn Rops q w idx.
+Proof.
+  induction q as [|s q IH]; intros v w H idx; [apply H|].
+  rewrite !multi_fn_cons. apply IH. intro i.
+  assert (KE : K (s_func s) v i = K (s_func s) w i).
+  { apply (kernel_local Rops (s_func s) v w i). intros j _. apply H. }
+  unfold single_fn. destruct (N.eqb (s_ctrl s) 0); [exact KE|].
+  destruct (ctrl_ok _ _); [exact KE|apply H].
+Qed.
+
+(** the pairing walk applies H on the listed bits, first listed first *)
+Lemma h_pairs_spec : forall ps, NoDup ps -> forall (psi : vecR) idx,
+  multi_fn Rops (h_pairs (pows ps)) psi idx = lift_all (doc_h Rops) (rev ps) psi idx.
+Proof.
+  assert (P2 : forall (P : list N -> Prop), P [] -> (forall a, P [a]) ->
+               (forall a b l, P l -> P (a :: b :: l)) -> forall l, P l).
+  { intros P H0 H1 H2. fix IH 1. intros [|a [|b l]]; [exact H0|apply H1|apply H2, IH]. }
+  intro ps. pattern ps. apply P2; clear ps.
+  - intros _ psi idx. reflexivity.
+  - intros a _ psi idx. cbn [pows map h_pairs rev app lift_all fold_right].
+    rewrite multi_fn_cons. cbn [multi_fn fold_left]. rewrite single_fn_uncontrolled. apply k_h.
+  - intros a b l IH Hnd psi idx.
+    inversion Hnd as [|a' l' Ha Hnd']; subst. inversion Hnd' as [|b' l'' Hb Hnd'']; subst.
+    assert (Hab : b <> a) by (intro E; apply Ha; left; exact E).
+    cbn [pows map h_pairs]. rewrite multi_fn_cons. change (map (fun j => 2 ^ j) l) with (pows l).
+    cbn [rev]. rewrite <- app_assoc, lift_all_app. cbn [app lift_all fold_right].
+    change (fold_right (fun b0 v => lift1 Rops (doc_h Rops) b0 v) ?x (rev l)) with (lift_all (doc_h Rops) (rev l) x).
+    rewrite (IH Hnd''). apply lift_all_ext. intro i.
+    rewrite single_fn_uncontrolled, (h2_comp b a Hab), k_h. apply lift1_ext. intro j. apply k_h.
+Qed.
+
+(** positions of the set bits met by the scan *)
+Fixpoint positions (d : nat) (k mask : N) : list N :=
+  match d with
+  | O => []
+  | S d' => if N.testbit mask k then k :: positions d' (N.succ k) mask else positions d' (N.succ k) mask
+  end.
+
+Lemma scan_positions d : forall k mask, scan_bits d (2 ^ k) mask = pows (positions d k mask).
+Proof.
+  induction d as [|d IH]; intros k mask; [reflexivity|].
+  rewrite scan_step. cbn [positions]. destruct (N.testbit mask k); cbn [pows map]; rewrite IH; reflexivity.
+Qed.
+
+Lemma positions_in d : forall k mask j,
+  In j (positions d k mask) <-> k <= j /\ (N.to_nat j < N.to_nat k + d)%nat /\ N.testbit mask j = true.
+Proof.
+  induction d as [|d IH]; intros k mask j; cbn [positions].
+  - cbn [In]. split; [tauto|]. lia.
+  - destruct (N.testbit mask k) eqn:Hb; cbn [In]; rewrite IH; split.
+    + intros [<-|[H1 [H2 H3]]]; repeat split; try lia; assumption.
+    + intros [H1 [H2 H3]]. destruct (N.eq_dec k j) as [E|E]; [left; exact E|right; repeat split; try lia; assumption].
+    + intros [H1 [H2 H3]]; repeat split; try lia; assumption.
+    + intros [H1 [H2 H3]]. destruct (N.eq_dec k j) as [E|E]; [subst; congruence|repeat split; try lia; assumption].
+Qed.
+
+Lemma positions_nodup d : forall k mask, NoDup (positions d k mask).
+Proof.
+  induction d as [|d IH]; intros k mask; cbn [positions]; [constructor|].
+  destruct (N.testbit mask k); [|apply IH]. constructor; [|apply IH].
+  rewrite positions_in. lia.
+Qed.
+
+Lemma scan64_positions mask : exists ps, scan64 mask = pows ps /\ NoDup ps /\
+  forall j, In j ps <-> j < 64 /\ N.testbit mask j = true.
+Proof.
+  exists (positions 64 0 mask). split; [|split].
+  - unfold scan64. assert (H := scan_positions 64 0 mask). change (2 ^ 0) with 1 in H. exact H.
+  - apply positions_nodup.
+  - intro j. rewrite positions_in. split; intros Hh; intuition lia.
+Qed.
+
+Lemma popcount_pos_ge1 p : 1 <= popcount_pos p.
+Proof. induction p as [p IH|p IH|]; cbn [popcount_pos]; lia. Qed.
+
+Lemma popcount_eq0 m : popcount m = 0 -> m = 0.
+Proof. destruct m as [|p]; [reflexivity|]. cbn [popcount]. assert (H := popcount_pos_ge1 p). lia. Qed.
+
+Lemma popcount_eq1 m : popcount m = 1 -> exists b, m = 2 ^ b.
+Proof.
+  destruct m as [|p]; [discriminate|]. cbn [popcount]. induction p as [p IH|p IH|]; cbn [popcount_pos].
+  - assert (H := popcount_pos_ge1 p). lia.
+  - intro H. destruct (IH H) as [b Hb]. exists (N.succ b). rewrite N.pow_succ_r', <- Hb. reflexivity.
+  - intros _. exists 0. reflexivity.
+Qed.
+
+Lemma testbit_high m j : m < 2 ^ 64 -> N.testbit m j = true -> j < 64.
+Proof.
+  intros Hm Hj. destruct (N.lt_ge_cases j 64) as [L|G]; [exact L|].
+  rewrite (testbit_lt_pow2 m j 64 Hm G) in Hj. discriminate.
 Qed.
